@@ -3,9 +3,9 @@ SPEC = dict(
     title="Loads and boots replace the database everywhere, durably",
     pkg="./store", files=["store/c22_verif_test.go", "store/c04_verif_test.go", "store/c03c04c22_common_verif_test.go"],
     case_preamble="Open Scope N_scope.\n",
-    rule="10 hand-picked histories (every kind of invalid data against a node with data; load through the log on three nodes; failing snapshot attempts between a load and the next successful snapshot, then rebuilds from the snapshot store; an unpersisted incremental, then a boot, then incrementals and rebuilds; boot then joiners that receive the database "
+    rule="12 hand-picked histories (every kind of invalid data against a node with data; load through the log on three nodes; failing snapshot attempts between a load and the next successful snapshot, then rebuilds from the snapshot store; an unpersisted incremental, then a boot, then incrementals and rebuilds; boot then joiners that receive the database "
          "by snapshot install; SQL-text and DELETE-mode loads) + 12 (quick) / 500 (thorough) random histories of <= 9 / <= 20 operations over writes, loads of generated "
-         "WAL-/DELETE-mode files, SQL-text loads, invalid loads (empty, truncated, header only, header + garbage, intact first pages + garbage, not SQLite), boots, snapshots of any node (persist ok / not invoked / failed, checkpoint blocked by a stalled reader, with or without log compaction), clean and unclean restarts of any node, "
+         "WAL-/DELETE-mode files, SQL-text loads, invalid loads (empty, truncated, header only, header + garbage, intact first pages + garbage, not SQLite), boots, snapshots of any node (as one step or as fsmSnapshot ... persist with writes / loads applied in between; persist ok / not invoked / failed, checkpoint blocked by a stalled reader, with or without log compaction), clean and unclean restarts of any node, "
          "joins (by log replay or by snapshot install), on an in-process cluster of one voter and up to two read-only nodes; a history is non-trivial when a successful load/boot is followed by a snapshot and "
          "then a restart or a join; distinct by the JSON of the history",
     exhaustive=False,
